@@ -209,7 +209,9 @@ def plan_hmc(prop, flags_quick, flags_thorough_in, oracle_text, profiles_quick=(
                     r, e = r + r3, e + e3
                 if with_miri and t == "thorough":
                     import mirirun
-                    roots0 = [x for x in HMC_ROOTS if x not in ("15,64",)]
+                    # (the 1 KiB / 32 KiB roots are left out: filling and poisoning their allocations under the interpreter takes
+                    # tens of minutes per operation sweep)
+                    roots0 = [x for x in HMC_ROOTS if x not in ("15,64", "22,1024", "23,4", "11,1024")]
                     jobs = [(x, 0, 0, 1) for x in roots0] + [(x, 1, i, 16) for x in ("2,4", "9,4", "14,4") for i in range(16)]
                     r2, e2 = mirirun.run(vc, prop, jobs)
                     r, e = r + r2, e + e2
